@@ -91,6 +91,23 @@ impl X509Certificate {
 		})
 	}
 
+	/// Parses a PEM certificate chain and returns its first (end-entity) certificate.
+	pub fn leaf_from_pem_chain(pem_data: &[u8]) -> Result<Self, Error> {
+		let mut chain = X509::stack_from_pem(pem_data)?;
+		if chain.is_empty() {
+			return Err("no certificate found".into());
+		}
+		Ok(X509Certificate {
+			inner_cert: chain.remove(0),
+		})
+	}
+
+	/// Tells whether or not the certificate's public key is the key pair's one.
+	pub fn has_public_key_of(&self, key_pair: &KeyPair) -> Result<bool, Error> {
+		let pk = self.inner_cert.public_key()?;
+		Ok(pk.public_eq(&key_pair.inner_key))
+	}
+
 	pub fn from_pem_native(pem_data: &[u8]) -> Result<native_tls::Certificate, Error> {
 		Ok(native_tls::Certificate::from_pem(pem_data)?)
 	}
